@@ -108,7 +108,8 @@ def vcs(B):
     Rm = [Rspec[i][j].smt(env) for i in range(3) for j in range(3)]
     e = B.call('rotation3DToEulerAngles', list(Rm))
     B.take_obligations()
-    gl = [app('<', '(- (/ pi 2.0))', ay), app('<', ay, '(/ pi 2.0)'), B.axiom('cos_positive_open_half', ay)]
+    # the property's quantifier: |pitch| <= pi/2 - 1e-3
+    gl = [app('<=', '(- (- (/ pi 2.0) 0.001))', ay), app('<=', ay, '(- (/ pi 2.0) 0.001)'), B.axiom('cos_positive_open_half', ay), B.axiom('away_from_half_pi', ay)]
     raw_roll = app('f_atan2', Rm[7], Rm[8])
     raw_pitch = neg(app('f_asin', Rm[6]))
     raw_yaw = app('f_atan2', Rm[3], Rm[0])
